@@ -148,6 +148,8 @@ def build(ast, ctx, mux=True):
             ops.append(f(py_fn(n[1]), reduce=bool(n[2])) if n[1] else f(reduce=bool(n[2])))
         elif k == 'to_list':
             ops.append(rs.data.to_list())
+        elif k == 'to_array':
+            ops.append(rs.data.to_array(n[1]))
         elif k == 'batch':
             ops.append(rs.data.batch(n[1]))
         elif k == 'duc':
@@ -395,6 +397,35 @@ def run_mux(ast, trace, taps=False):
         res['taps'] = {str(t): l for t, l in ctx.taps.items()}
         res['tap_marks'] = tap_marks
     return res
+
+
+def run_mux_plain_source(ast, items, entry='memory_store'):
+    """The public entry points: a PLAIN source of items through rs.state.with_memory_store(pipeline) (or
+    rs.ops.multiplex(pipeline) for stateless pipelines); what the subscriber receives is converted to the same
+    per-step format as run_mux on the trace Create (0,), items..., Completed (0,), so that the same Coq case applies."""
+    cur = []
+    ctx = Ctx(cur.append)
+    sink = io.StringIO()
+    with contextlib.redirect_stdout(sink):
+        ops = build(ast, ctx)
+        src = Subject()
+        wrapper = rs.state.with_memory_store(rx.pipe(*ops)) if entry == 'memory_store' else rs.ops.multiplex(rx.pipe(*ops))
+        src.pipe(wrapper).subscribe(on_next=lambda i: cur.append(['n', [0], enc(i)]),
+                                    on_error=lambda e: cur.append(['fatal', exn_code(e)]),
+                                    on_completed=lambda: cur.append(['completed']))
+        steps = [[['c', [0]]] + list(cur)]
+        del cur[:]
+        for x in items:
+            src.on_next(dec(x))
+            steps.append(list(cur))
+            del cur[:]
+        src.on_completed()
+        last = [o for o in cur if o[0] != 'completed']
+        if not any(o[0] == 'fatal' for st in steps for o in st) and not any(o[0] == 'fatal' for o in last):
+            last.append(['d', [0]])
+        steps.append(last)
+        final = [o for o in cur if o[0] == 'completed']
+    return {'steps': steps, 'sub': [], 'final': final}
 
 
 def pyval_exn(code):
